@@ -8,7 +8,7 @@
 KFAMILIES = {
     "K-claim": {"filters": ["query::view::claim::verif_kani::"], "bounded": None,
                 "note": "finite domain (3 claims per position, lists of length <= 3): complete"},
-    "K-col": {"filters": ["archetype::verif_kani::col_"], "bounded": "rows <= 3, registry K3 = (Z zero-sized+Drop, S u8, T 16-aligned Drop/Clone-tracked), archetype shapes fixed per harness; payloads and row indices symbolic",
+    "K-col": {"filters": ["archetype::verif_kani::col_"], "extra": ["--cbmc-args", "--memory-leak-check"], "bounded": "rows <= 3, registry K3 = (Z zero-sized+Drop, S u8, T 16-aligned Drop/Clone-tracked), archetype shapes fixed per harness; payloads and row indices symbolic",
               "note": "contract harnesses of the real column store through Archetype operations, with CBMC's memory model and a ghost drop ledger"},
     "K-alloc": {"filters": ["entity::allocator::verif_kani::pair_"], "bounded": "<= 3 slots, 6 allocator shapes, batches of 0..=3; generations and rows symbolic",
                 "note": "bounded twins of the V-alloc contracts; referee only, never counted as proof"},
@@ -19,7 +19,8 @@ PROPS = {
         "level": "proof",
         "v": ["arch"],
         "k": [],
-        "k_thorough": [],
+        "k_thorough": ["K-alloc"],
+        "referee": ["K-alloc", "K-col"],
         "assumptions": ["A1", "A2", "A5"],
         "technique": "contract-based deductive verification: Verus pre/postconditions, loop invariants and history lemmas on the real allocator functions extracted from /repo each run",
         "level_text": "Unbounded proof (Verus/Z3) that every allocator operation extracted from the working tree meets a contract stated over the abstract map identifier->location: allocate/allocate_batch return identifiers that did not resolve before, bump the slot generation on reuse, leave every other slot unchanged; free makes exactly that identifier dead; lookups equal the abstract map. History lemmas over the postcondition predicates give: issued identifiers are pairwise distinct over the whole lifetime, a dead identifier stays dead across any later reuse, live ones keep resolving.",
@@ -30,7 +31,8 @@ PROPS = {
         "level": "proof",
         "v": ["arch"],
         "k": [],
-        "k_thorough": [],
+        "k_thorough": ["K-alloc"],
+        "referee": ["K-alloc", "K-col"],
         "assumptions": ["A1", "A2", "A5"],
         "technique": "contract-based deductive verification: Verus representation invariant (free list == inactive slots, no duplicates, in bounds) as postcondition and loop invariant of every real allocator operation",
         "level_text": "Unbounded proof (Verus/Z3) that every allocator operation preserves the representation invariant wf: every free index is in bounds and names an inactive slot, no index is listed twice, and every inactive slot is listed (none lost) -- for all free-list lengths, batch sizes and histories, because the invariant is proved inductive per operation from a symbolic state.",
